@@ -9,9 +9,9 @@ CLAIMED = {
  "C01": ("model_checking", "stateless preemption-bounded exploration of the real mutex/spinlock code under a controlled scheduler (TSan-ABI hooks at every atomic/volatile op)",
          "every interleaving with <=1 (quick) / <=2-3 (thorough) preemptions plus <=1 time deviation of 2-3 photon threads on 2-3 vCPUs doing lock/timed lock/try_lock/unlock/interrupt on mutex, recursive_mutex; spinlock/ticket/qspinlock between 2-3 OS threads up to 4-8 preemptions; oracle: critical-section occupancy, return value vs owner, failed lock owns nothing, no deadlock, not left locked",
          "SC interleavings only (no store buffers); plain accesses are not scheduling points; bounded thread counts and preemptions", "3 C01"),
- "C09": ("model_checking", "exhaustive enumeration of program shapes / arrival orders / timeout positions on the real channel code (single vCPU, virtual clock)",
+ "C09": ("model_checking", "exhaustive enumeration of program shapes / arrival orders / timeout positions on the real channel code (single vCPU, virtual clock) + preemption-bounded exploration on 2-3 vCPUs under the controlled scheduler",
          "all arrival orders (0..2 yield paddings per op) of <=4 actors x <=2 ops, capacities 0/1/2, blocking/timed/try ops, close, with <=1 (quick) / <=2 (thorough) timeouts landing at arbitrary points; oracle: value conservation, per-sender order, false only for close/timeout, nobody blocked while a partner/slot/item exists",
-         "one vCPU (cross-vCPU races of the buffered variant are not covered by this target); virtual clock", "3 C09"),
+         "go_sv: one vCPU, virtual clock; go_xv: blocking / timed / try senders, receivers and a closer on 2-3 vCPUs, capacities 0/1/2, <=1-2 / <=2-3 preemptions, SC interleavings; the deadlock outcome is judged against the channel state (lost wake-ups)", "3 C09"),
  "C15": ("exploration", "bounded-exhaustive enumeration of (offset,length,interval) against a byte-walk reference",
          "complete over intervals 1..9/12, powers of two 2^0..2^4/5 and boundary relations at 2^20/2^32/2^62, all key-point lists with gaps {1,2,3} up to 4/5 blocks",
          "offset+length+interval < 2^64; NDEBUG build", "3 C15"),
